@@ -842,10 +842,13 @@ class Interp:
                     return [(Const(len(args[0].v)), st)]
                 except Exception:
                     return [(Exc("TypeError", e), st)]
-            if f.id in ("int", "str", "bool", "bytes", "list", "tuple", "sorted") and len(args) == 1 and isinstance(args[0], Const) and not kw:
+            if f.id in ("set", "frozenset", "list", "dict") and not args and not kw:
+                return [(Const({"set": set, "frozenset": frozenset, "list": list, "dict": dict}[f.id]()), st)]
+            if f.id in ("int", "str", "bool", "bytes", "list", "tuple", "sorted", "set", "frozenset") and len(args) == 1 \
+                    and isinstance(args[0], Const) and not kw:
                 try:
                     return [(Const({"int": int, "str": str, "bool": bool, "bytes": bytes, "list": list, "tuple": tuple,
-                                    "sorted": sorted}[f.id](args[0].v)), st)]
+                                    "sorted": sorted, "set": set, "frozenset": frozenset}[f.id](args[0].v)), st)]
                 except Exception as ex:
                     return [(Exc(type(ex).__name__, e), st)]
         if isinstance(f, ast.Attribute) and isinstance(recv, Const) and isinstance(recv.v, (MList, MDict)) and not kw \
@@ -872,6 +875,19 @@ class Interp:
                 else:
                     s2.env[key] = Unknown("list")
                 return [(Const(None), s2)]
+        if isinstance(f, ast.Attribute) and isinstance(recv, Const) and isinstance(recv.v, set) and f.attr in ("add", "discard", "update", "remove") \
+                and isinstance(f.value, ast.Name) and f.value.id in st.env and not kw:
+            s2 = st.copy()
+            if all(isinstance(a, Const) for a in args):
+                cur = set(recv.v)
+                try:
+                    getattr(cur, f.attr)(*[a.v for a in args])
+                    s2.env[f.value.id] = Const(cur)
+                    return [(Const(None), s2)]
+                except Exception as ex:
+                    return [(Exc(type(ex).__name__, e), st)]
+            s2.env[f.value.id] = Unknown("set")
+            return [(Const(None), s2)]
         if isinstance(f, ast.Attribute) and isinstance(recv, Const) and isinstance(recv.v, dict) and f.attr in ("update", "setdefault") \
                 and isinstance(f.value, ast.Name) and f.value.id in st.env and not kw:
             s2 = st.copy()
